@@ -13,18 +13,19 @@
   bottom-up; every stage is a theorem for ALL presentations of its kind (no bounds).
 
   PROVED (full strength for the stated forms)
-   * integer fields; `\X` and `\DDD` escapes; absolute names in any mix of raw / `\X` / `\DDD`
-     octet forms (incl. escaped dots, blanks, newlines, with the line count); `CLASSnnn`,
-     `TYPEnnn`; `\# len hex` RDATA for any class and type, checked against `Rdata::validate`;
-     the lexical layer on blanks, comments and line ends;
+   * integer fields; `\X` and `\DDD` escapes; domain names in any mix of raw / `\X` / `\DDD`
+     octet forms (incl. escaped dots, blanks, newlines, with the line count): absolute names,
+     relative names completed with the origin, `@`; `CLASSnnn`, `TYPEnnn`; `\# len hex` RDATA for
+     any class and type, checked against `Rdata::validate`; the lexical layer on blanks, comments
+     and line ends;
    * records assembled from these, with TTL and class each written or omitted (context
-     defaults: `$TTL` default before previous TTL; previous class), owner written or omitted
-     (leading blanks ⇒ previous owner), blank and comment-only lines in between;
+     defaults: `$TTL` default before previous TTL; previous class), owner absolute / relative /
+     `@` / omitted (leading blanks ⇒ previous owner); `$ORIGIN` and `$TTL` directive lines; blank
+     and comment-only lines;
    * whole files of such entries: exactly the denoted records, in order, with line numbers
      (`C23_records_partial`).
   NOT PROVED (the gap; the name says `_partial`)
-     relative names and `@` (origin completion), `$ORIGIN` / `$TTL` / directive lines, the
-     class-before-TTL order, type and class mnemonics, the typed RDATA syntaxes (A, AAAA, names,
+     the class-before-TTL order, type and class mnemonics, the typed RDATA syntaxes (A, AAAA, names,
      SOA, MX, TXT/HINFO strings quoted and unquoted, WKS, SRV, …), parentheses across lines,
      CRLF, a last line without newline.  These are covered on every run by the correspondence
      oracle, which is independent of these proofs: the harness's pretty-printer renders random
@@ -75,17 +76,29 @@ theorem C23_generic_rdata (ctx : Ctx) (cls ty : Nat) (h41 : ty ≠ 41) (h250 : t
       .ok (rd, ⟨r, line + 1, false⟩) :=
   parseRdata_generic ctx cls ty h41 h250 sep rd ws cmt r hne hsep hlen hvalid hws hc line
 
+/-- relative names are completed with the origin; `@` is the origin -/
+theorem C23_relative_name (o : List UInt8) (ho : NameWF o) (ls : List PLabel) (l : PLabel)
+    (hforms : ∀ l' ∈ ls ++ [l], ∀ x ∈ l', nameFormOK x.1 x.2 = true)
+    (hLs : LabelsOK ((ls ++ [l]).map labelOctets))
+    (htotal : (wireLabels ((ls ++ [l]).map labelOctets)).length + o.length ≤ 255)
+    (hnotat : renderLabels (ls ++ [l]) ≠ [64])
+    (rest : List UInt8) (hrest : atFieldEnd rest = true) (line : Nat) (paren : Bool) :
+    parseName (some o) ⟨renderLabels (ls ++ [l]) ++ rest, line, paren⟩ =
+      .ok (wireLabels ((ls ++ [l]).map labelOctets) ++ o, ⟨rest, line + ownerLines (.rel ls l), paren⟩) ∧
+    parseName (some o) ⟨64 :: rest, line, paren⟩ = .ok (o, ⟨rest, line, paren⟩) :=
+  ⟨parseName_rel o ho ls l hforms hLs htotal hnotat rest hrest line paren, parseName_at o rest hrest line paren⟩
+
 /-! ### records and files -/
 
 /-- one record line ↦ the record it denotes, and the context it leaves -/
-theorem C23_record_partial (ctx : Ctx) (p : PRecord) (hwf : WFRecord p) (line : Nat) (r : List UInt8)
-    (sr : SRecord) (sc' : SCtx) (hden : denoteRecord (toSCtx ctx) line p = some (sr, sc'))
+theorem C23_record_partial (ctx : Ctx) (hctx : CtxWF ctx) (p : PRecord) (hwf : WFRecord p) (line : Nat)
+    (r : List UInt8) (sr : SRecord) (sc' : SCtx) (hden : denoteRecord (toSCtx ctx) line p = some (sr, sc'))
     (hvalid : Rdata.validate sr.cls p.ty p.rdata.toArray = .ok ()) :
     ∃ ctx', parseLine ctx ⟨renderRecord p ++ r, line, false⟩ =
         .ok ((some (.record sr.line ⟨sr.owner, sr.ttl, sr.cls, sr.ty, sr.rdata⟩), ctx'),
              ⟨r, line + ownerLines p.owner + 1, false⟩) ∧
-      toSCtx ctx' = sc' ∧ ctx'.origin = ctx.origin :=
-  parseLine_record ctx p hwf line r sr sc' hden hvalid
+      toSCtx ctx' = sc' :=
+  parseLine_record ctx hctx p hwf line r sr sc' hden hvalid
 
 /-- **Whole files (the subset above).**  For every list of well-formed entries and every
     well-formed initial context in which the file denotes the records `srs` (each with RDATA valid
@@ -99,40 +112,62 @@ theorem C23_records_partial (es : List PEntry) (hwf : ∀ e ∈ es, WFEntry e) (
 
 /-! ### non-vacuity -/
 
-/-- `a\.b.\010c. 5 CLASS1 TYPE1 \# 4 01020304 ;x` / (blank) / ` TYPE16 \# 2 0161` -/
+/-- `$ORIGIN t.` / `a\.b.\010c. 5 CLASS1 TYPE1 \# 4 01020304 ;x` / (blank) / ` TYPE16 \# 2 0161`
+    / `$TTL 9` / `w CLASS3 TYPE99 \# 0` / `@ TYPE2 \# 3 017800` -/
 def exFile : List PEntry :=
-  [.record ⟨.abs [[(97, .raw), (46, .esc), (98, .raw)], [(10, .dec), (99, .raw)]], some 5, some 1, 1,
+  [.origin [[(116, .raw)]] [32] [] [],
+   .record ⟨.abs [[(97, .raw), (46, .esc), (98, .raw)], [(10, .dec), (99, .raw)]], some 5, some 1, 1,
       [1, 2, 3, 4], [32], [32], [59, 120]⟩,
    .blank [9] [],
-   .record ⟨.same, none, none, 16, [1, 97], [32, 9], [], []⟩]
+   .record ⟨.same, none, none, 16, [1, 97], [32, 9], [], []⟩,
+   .ttl 9 [32] [] [],
+   .record ⟨.rel [] [(119, .raw)], none, some 3, 99, [], [32], [], []⟩,
+   .record ⟨.atSign, none, none, 2, [1, 120, 0], [32], [], []⟩]
 
-/-- the example file is well-formed, denotes two records, and their RDATA is valid -/
+/-- the example file is well-formed and denotes four records -/
 theorem exFile_ok :
     (∀ e ∈ exFile, WFEntry e) ∧
     denoteFile exFile (toSCtx {}) 1 =
-      some [⟨1, [3, 97, 46, 98, 2, 10, 99, 0], 5, 1, 1, [1, 2, 3, 4]⟩,
-            ⟨3, [3, 97, 46, 98, 2, 10, 99, 0], 5, 1, 16, [1, 97]⟩] := by
+      some [⟨2, [3, 97, 46, 98, 2, 10, 99, 0], 5, 1, 1, [1, 2, 3, 4]⟩,
+            ⟨4, [3, 97, 46, 98, 2, 10, 99, 0], 5, 1, 16, [1, 97]⟩,
+            ⟨6, [1, 119, 1, 116, 0], 9, 3, 99, []⟩,
+            ⟨7, [1, 116, 0], 9, 3, 2, [1, 120, 0]⟩] := by
   refine ⟨?_, by decide⟩
+  have wfAbs1 : WFOwnerAbs [[(116, .raw)]] :=
+    ⟨by simp, by decide, by simp [LabelsOK, labelOctets], by decide, by decide⟩
+  have wfAbs2 : WFOwnerAbs [[(97, .raw), (46, .esc), (98, .raw)], [(10, .dec), (99, .raw)]] :=
+    ⟨by simp, by decide, by simp [LabelsOK, labelOctets], by decide, by decide⟩
   intro e he
   simp only [exFile, List.mem_cons, List.mem_nil_iff, or_false] at he
-  rcases he with rfl | rfl | rfl
-  · refine ⟨by simp, by decide, by decide, .inr ⟨[120], rfl, by decide⟩, ?_, by decide, by decide, by decide, by decide⟩
-    intro ls hls
-    cases hls
-    exact ⟨by simp, by decide, by simp [LabelsOK, labelOctets], by decide, by decide⟩
+  rcases he with rfl | rfl | rfl | rfl | rfl | rfl | rfl
+  · exact ⟨wfAbs1, by simp, by decide, by decide, .inl rfl⟩
+  · refine ⟨by simp, by decide, by decide, .inr ⟨[120], rfl, by decide⟩, ?_, ?_, by decide, by decide, by decide, by decide⟩
+    · intro ls hls; cases hls; exact wfAbs2
+    · intro ls l hls; cases hls
   · exact ⟨by decide, .inl rfl⟩
-  · refine ⟨by simp, by decide, by decide, .inl rfl, ?_, by decide, by decide, by decide, by decide⟩
-    intro ls hls; cases hls
+  · refine ⟨by simp, by decide, by decide, .inl rfl, ?_, ?_, by decide, by decide, by decide, by decide⟩
+    · intro ls hls; cases hls
+    · intro ls l hls; cases hls
+  · exact ⟨by decide, by simp, by decide, by decide, .inl rfl⟩
+  · refine ⟨by simp, by decide, by decide, .inl rfl, ?_, ?_, by decide, by decide, by decide, by decide⟩
+    · intro ls hls; cases hls
+    · intro ls l hls; cases hls
+      exact ⟨by decide, by simp [LabelsOK, labelOctets], by decide, by decide⟩
+  · refine ⟨by simp, by decide, by decide, .inl rfl, ?_, ?_, by decide, by decide, by decide, by decide⟩
+    · intro ls hls; cases hls
+    · intro ls l hls; cases hls
 
-/-- … so the theorem applies to it (and the parser's own run agrees) -/
+/-- … so the theorem applies to it -/
 example : parseAll (renderFile exFile) {} =
-    [.item (.record 1 ⟨[3, 97, 46, 98, 2, 10, 99, 0], 5, 1, 1, [1, 2, 3, 4]⟩),
-     .item (.record 3 ⟨[3, 97, 46, 98, 2, 10, 99, 0], 5, 1, 16, [1, 97]⟩)] := by
+    [.item (.record 2 ⟨[3, 97, 46, 98, 2, 10, 99, 0], 5, 1, 1, [1, 2, 3, 4]⟩),
+     .item (.record 4 ⟨[3, 97, 46, 98, 2, 10, 99, 0], 5, 1, 16, [1, 97]⟩),
+     .item (.record 6 ⟨[1, 119, 1, 116, 0], 9, 3, 99, []⟩),
+     .item (.record 7 ⟨[1, 116, 0], 9, 3, 2, [1, 120, 0]⟩)] := by
   rw [C23_records_partial exFile exFile_ok.1 {} CtxWF_default _ exFile_ok.2 (by decide +kernel)]
   rfl
 
-/-- concrete witness beyond the proved subset (relative names, `@`, `$ORIGIN`, parentheses,
-    comments, quoted strings): `$ORIGIN t.` / `@ 5 IN NS ( a` / ` ) ; c` / ` TXT "x y" z` -/
+/-- concrete witness beyond the proved subset (parentheses, comments inside them, quoted strings,
+    mnemonics): `$ORIGIN t.` / `@ 5 IN NS ( a` / ` ) ; c` / ` TXT "x y" z` -/
 theorem C23_witness :
     parseAll ("$ORIGIN t.\n@ 5 IN NS ( a\n ) ; c\n TXT \"x y\" z\n".toUTF8.toList) {} =
       [.item (.record 2 ⟨[1, 116, 0], 5, 1, 2, [1, 97, 1, 116, 0]⟩),
